@@ -11,7 +11,7 @@ from typing import Dict, List, Optional
 from .. import sym
 from ..values import Num, Const, Tup, Term, Val, Kw, Gam, P, Fn, veq, walk_vals, p_not
 from ..model import AnalysisError
-from ..symeval import Evaluator
+from ..symeval import Evaluator, State
 from ..datasets_model import DS, BASE, REMOTE_LOADER, const_str
 from .common import show, REPO_RESULT_KIND, ModSpec, targ, inline_except
 from ..truth import equivalent
@@ -174,6 +174,8 @@ def check_slot_writers(ctx):
                       parse.loc(), fi.qualname, f"dominates:{tag}")
         # the parsed file is the verified one
         pf = targ(parse.data['result'], 'fname', 0)
+        while isinstance(pf, Term) and pf.head == 'enter' and pf.args:
+            pf = pf.args[0]         # `with GzipFile(...) as f: loadtxt(f)`: the handle entered is the file object itself
         src_ok = pf is not None and (veq(pf, dl_dst) or (isinstance(pf, Term) and pf.head == 'lib:gzip.GzipFile' and veq(targ(pf, 'filename', 0), dl_dst)))
         ctx.check(src_ok, 'C19.2', f"{tag}: the parsed file is the downloaded, verified file", show(pf, 160), parse.loc(), fi.qualname, f"parsed:{tag}")
         if gz.v:
@@ -240,10 +242,12 @@ def check_checksum_on(ctx):
 
 
 def check_retry(ctx):
-    ctx.rule('C19.4', 'retry loop, read off the evaluated download path (helpers inlined): the download sits in a try inside an unbounded loop; the handler catches '
-                      'exactly URLError and TimeoutError, re-raises the caught exception (bare raise) exactly when the counter - a loop-carried copy of n_retries - '
-                      'is exhausted, otherwise leaves the counter one lower and falls through to the next iteration; success leaves the loop; the handler neither '
-                      'returns, breaks nor raises something else; hence up to n_retries failures are absorbed and the next one propagates')
+    ctx.rule('C19.4', 'retry loop, read off the evaluated download path (helpers inlined): the download sits in a try inside a loop; the handler catches exactly '
+                      'URLError and TimeoutError and re-raises the caught exception (bare raise) exactly when the retries are used up - the number of retries '
+                      'left is a loop-carried quantity that starts as n_retries and is one lower after each absorbed failure (counted down to 0, or failures '
+                      'counted up to n_retries) - otherwise it goes on to the next attempt; success leaves the loop (break / return / a loop condition that the '
+                      'success path turns false); the handler neither returns, breaks nor raises something else; hence up to n_retries failures are absorbed and '
+                      'the next one propagates')
     fi, ev, res, args = evaluate(ctx, {'download_if_missing': Const(True), 'download_even_if_available': Const(True), 'validate_checksum': Const(True)}, available=False)
     dls = [e for e in ev.events if e.kind == 'lib' and e.data['name'] == 'urllib.request.urlretrieve']
     if len(dls) != 1:
@@ -251,17 +255,18 @@ def check_retry(ctx):
     dl = dls[0]
     owner = dl.func if dl.func is not None else fi
     tries = [e for e in ev.events if e.kind == 'try' and e.data['body_events'][0] <= ev.events.index(dl) < e.data['body_events'][1]]
-    wloops = [l for l in dl.loops if l.kind == 'while']
-    if tries and not wloops and dl.loops:
-        return check_retry_bounded(ctx, ev, fi, dl, tries[-1], args, owner)
-    if not tries or not wloops:
+    if not tries or not dl.loops:
         raise AnalysisError('C19.4: retry idiom around urlretrieve not recognised (the download is not inside a try inside a loop)')
     tev = tries[-1]
-    lp = wloops[-1]
-    log = [e for e in ev.loop_log if e['lid'] == lp.lid][0]
+    lp = dl.loops[-1]
+    logs = [e for e in ev.loop_log if e['lid'] == lp.lid]
+    if not logs:
+        raise AnalysisError('C19.4: retry loop not recorded by the evaluator')
+    log = logs[0]
+    if lp.kind == 'range' or (log.get('for') and lp.kind not in ('count',)):
+        return check_retry_bounded(ctx, ev, fi, dl, tev, args, owner)
     inst = f"retry loop at {owner.loc(lp.node)}"
-    ctx.check(isinstance(log['cond'], Const) and log['cond'].v is True, 'C19.4', inst + ': the loop itself never gives up (`while True`); only success or the re-raise leave it',
-              str(log['cond']), owner.loc(lp.node), owner.qualname, 'loop-form')
+    nparam = args['n_retries']
     hs = tev.data['handlers']
     ctx.check(len(hs) == 1, 'C19.4', inst + ': one handler', f"{len(hs)} handlers", owner.loc(tev.node), owner.qualname, 'one-handler')
     names = sorted(n if isinstance(n, str) else str(n) for h in hs for n in (h if isinstance(h, list) else [h]))
@@ -272,7 +277,6 @@ def check_retry(ctx):
         return any(isinstance(g, P) and g.op == 'except' and veq(g.args[1], Const(tev.seq)) for g in e.guard)
 
     def handler_guard(e):
-        """conditions inside the handler under which the event happens"""
         out, seen = [], False
         for g in e.guard:
             if isinstance(g, P) and g.op == 'except' and veq(g.args[1], Const(tev.seq)):
@@ -282,11 +286,46 @@ def check_retry(ctx):
                 out.append(g)
         return out
     inside = [e for e in ev.events if lp in e.loops]
-    # success leaves the loop
+    ends = tev.data.get('handler_ends', [])
+    hend = ends[0]['env'] if len(ends) == 1 else {}
+    cond = log['cond']
+    # ---- the loop goes on after an absorbed failure and stops after a success
+    def cond_with(envmap) -> Optional[bool]:
+        """the loop condition with the loop-carried names replaced by their values at the end of a path"""
+        if isinstance(cond, Const):
+            return bool(cond.v)
+        from ..truth import substitute_terms
+        pairs = [(log['entry'][nm], envmap.get(nm)) for nm in log['names'] if nm in log['entry'] and envmap.get(nm) is not None]
+        if all(veq(a_, b_) for a_, b_ in pairs if any(veq(t_, (a_ if not isinstance(a_, Num) else a_)) for t_ in walk_vals(cond))) and \
+                all(veq(a_, b_) for a_, b_ in pairs if str(a_) in str(cond)):
+            return True         # nothing the condition reads has changed: it holds as it did when the iteration began
+
+        def fn(t):
+            for ent, val in pairs:
+                et = ent
+                if isinstance(et, Num):
+                    from ..scanmodel import _single_val_term
+                    et = _single_val_term(et) or et
+                if isinstance(et, Term) and et.head == t.head and et.uid == t.uid and veq(et, t):
+                    return val
+            return None
+        c2 = substitute_terms(cond, fn)
+        c2 = ev.truth(c2, State(), lp.node) if not isinstance(c2, (Const, P)) else c2
+        if isinstance(c2, P) and c2.op == 'not' and isinstance(c2.args[0], P) and c2.args[0].op == 'truthy' and isinstance(c2.args[0].args[0], Const):
+            return not bool(c2.args[0].args[0].v)
+        if isinstance(c2, P) and c2.op == 'truthy' and isinstance(c2.args[0], Const):
+            return bool(c2.args[0].v)
+        return bool(c2.v) if isinstance(c2, Const) else None
     leave = [e for e in inside if e.kind in ('break', 'return') and not in_handler(e) and e.seq > dl.seq and e.loops and e.loops[-1] is lp]
-    ctx.check(bool(leave) and all(not e.guard[len(dl.guard):] for e in leave[:1]), 'C19.4', inst + ': success leaves the loop (break / return right after the download)',
-              f"{[(e.kind, e.loc()) for e in leave]}", owner.loc(tev.node), owner.qualname, 'break')
-    # the handler: re-raise exactly when the counter is exhausted
+    success_end = log['end'].env
+    stops = cond_with(success_end)
+    ok_leave = (bool(leave) and all(not e.guard[len(dl.guard):] for e in leave[:1])) or stops is False
+    ctx.check(ok_leave if (leave or stops is not None) else None, 'C19.4', inst + ': success leaves the loop (break / return after the download, or a loop condition the '
+              'success path turns false)', f"exits {[(e.kind, e.loc()) for e in leave]}; loop condition after a success: {stops}", owner.loc(tev.node), owner.qualname, 'break')
+    goes_on = cond_with(hend) if hend else None
+    ctx.check(goes_on if goes_on is not None else None, 'C19.4', inst + ': after an absorbed failure the loop makes another attempt (its condition still holds)',
+              f"loop condition {cond} after the handler: {goes_on}", owner.loc(lp.node), owner.qualname, 'loop-form')
+    # ---- the handler: re-raise exactly when no retry is left
     raises = [e for e in inside if e.kind == 'raise' and in_handler(e)]
     rer = [e for e in raises if e.data.get('reraise')]
     other = [e for e in raises if not e.data.get('reraise')]
@@ -295,36 +334,51 @@ def check_retry(ctx):
     swallow = [e for e in inside if e.kind in ('break', 'return') and in_handler(e)]
     ctx.check(not swallow, 'C19.4', inst + ': the handler neither returns nor breaks (no swallowed failure)', f"{[(e.kind, e.loc()) for e in swallow]}",
               owner.loc(tev.node), owner.qualname, 'no-swallow')
-    counter = None
-    ok_test = False
+    counter, mode = None, None
     detail = 'no bare `raise` in the handler'
-    nparam = args['n_retries']
     if len(rer) == 1:
         g = handler_guard(rer[0])
+        gp = g[0] if len(g) == 1 else (P('and', *g) if g else Const(True))
         detail = f"re-raises when {[str(x) for x in g]}"
-        # candidates: loop-carried names whose value before the loop is the n_retries parameter
-        for nm in sorted(log['names']):
-            pre = log['pre'].env.get(nm)
-            if pre is None or not veq(ev.as_num(pre), nparam):
+        cands = sorted(log['names']) + ([log['var']] if log.get('for') and log.get('var') else [])
+        for nm in cands:
+            if nm not in log['entry']:
                 continue
             cin = ev.as_num(log['entry'][nm])
-            for want in (P('==', cin, Num(C(0))), p_not(P('<', Num(C(0)), cin))):
-                verdict, _ = equivalent(g[0] if len(g) == 1 else P('and', *g) if g else Const(True), want)
-                if verdict:
-                    counter, ok_test = nm, True
-    ctx.check(len(rer) == 1 and ok_test, 'C19.4', inst + ': the handler re-raises the caught exception (bare raise) exactly when the counter is exhausted (== 0)',
-              detail, owner.loc(tev.node), owner.qualname, 'reraise')
+            if cin is None or cin.length is not None:
+                continue
+            pre = ev.as_num(log['pre'].env.get(nm)) if log['pre'].env.get(nm) is not None else None
+            is_loopvar = bool(log.get('for')) and nm == log.get('var')
+            # counting the retries left down to 0 ...
+            if pre is not None and veq(pre, nparam) and not is_loopvar:
+                for want in (P('==', cin, Num(C(0))), p_not(P('<', Num(C(0)), cin))):
+                    if equivalent(gp, want)[0]:
+                        counter, mode = nm, 'down'
+            # ... or the failures up to n_retries
+            starts0 = (is_loopvar and log.get('lo') is not None and log['lo'] == C(0)) or (pre is not None and pre.is_const() and pre.const() == 0)
+            if counter is None and starts0:
+                for want in (P('==', cin, nparam), p_not(P('<', cin, nparam))):
+                    if equivalent(gp, want)[0]:
+                        counter, mode = nm, 'up'
+    ctx.check(len(rer) == 1 and counter is not None, 'C19.4', inst + ': the handler re-raises the caught exception (bare raise) exactly when the retries are used up '
+              '(retries left == 0, or failures so far == n_retries)', detail, owner.loc(tev.node), owner.qualname, 'reraise')
     if counter is not None:
-        ctx.ok('C19.4', inst + f": the counter `{counter}` starts as the n_retries parameter", '', owner.loc(tev.node), owner.qualname, 'counter-param')
-        ends = tev.data.get('handler_ends', [])
         cin = ev.as_num(log['entry'][counter])
-        okd = len(ends) == 1 and ends[0]['falls_through'] and ev.as_num(ends[0]['env'].get(counter)) is not None and ev.as_num(ends[0]['env'][counter]).r == cin.r - C(1)
-        ctx.check(okd, 'C19.4', inst + ': each absorbed failure leaves the counter exactly one lower and goes on to the next attempt',
-                  f"{[(h['falls_through'], show(h['env'].get(counter), 60)) for h in ends]}", owner.loc(tev.node), owner.qualname, 'decrement')
+        is_loopvar = bool(log.get('for')) and counter == log.get('var')
+        if is_loopvar:
+            okd = len(ends) == 1 and ends[0]['falls_through'] and veq(ev.as_num(ends[0]['env'].get(counter)), cin)
+            what = 'the loop counter counts the failures (the handler leaves it alone and falls through to the next attempt)'
+        else:
+            step = C(-1) if mode == 'down' else C(1)
+            okd = len(ends) == 1 and ends[0]['falls_through'] and ev.as_num(ends[0]['env'].get(counter)) is not None \
+                and ev.as_num(ends[0]['env'][counter]).r == cin.r + step
+            what = f"each absorbed failure moves the counter by exactly one ({'down' if mode == 'down' else 'up'}) and goes on to the next attempt"
+        ctx.check(okd, 'C19.4', inst + ': ' + what, f"{[(h['falls_through'], show(h['env'].get(counter), 60)) for h in ends]}", owner.loc(tev.node), owner.qualname, 'decrement')
+        # the success path must not consume retries either way (only failures count)
     t = tev.node
     ctx.check(not t.finalbody or not any(isinstance(n, (ast.Return, ast.Break, ast.Continue)) for s_ in t.finalbody for n in ast.walk(s_)), 'C19.4',
               inst + ': no finally clause overrides the propagation', '', owner.loc(t), owner.qualname, 'finally')
-    ctx.sample({'rule': 'C19.4', 'handler': names, 'counter': counter, 'function': owner.qualname})
+    ctx.sample({'rule': 'C19.4', 'handler': names, 'counter': counter, 'counting': mode, 'function': owner.qualname})
 
 
 def check_retry_bounded(ctx, ev, fi, dl, tev, args, owner):
